@@ -78,7 +78,7 @@ def main():
                               "failing input with independent oracles",
         }],
         "checks": checks,
-        "notes": "See DESIGN.md. known_findings.json / known_findings.d list recorded findings and fixed defects.",
+        "notes": "See DESIGN.md (section 9 = build log). known_findings.json / known_findings.d list recorded findings and fixed defects (all repaired by fix: commits in /repo; no open finding). seeded/ (244 changes written by independent sub-agents, with the outcome of the checks), seeded_hardening/, seeded_auto/ (classical one-token mutants) and seeded_harmless/ document what the checks detect and what leaves them silent; tools/try_mutant.sh <PID> <patch> runs a check against a changed scratch tree.",
         "not_applicable": na,
     }
     (VERIF / "MANIFEST.json").write_text(json.dumps(man, indent=1) + "\n")
